@@ -52,6 +52,8 @@ pub struct Ctx {
     pub transitions: AtomicU64,
     pub states: AtomicU64,
     pub max_depth: AtomicU64,
+    /// cases counted in bulk (distinct by construction), see Local::bulk_cases
+    bulk: AtomicU64,
     distinct: Mutex<HashSet<u64>>,
     nontrivial: Mutex<HashSet<u64>>,
     outcomes: Mutex<BTreeMap<String, u64>>,
@@ -95,6 +97,7 @@ impl Ctx {
             transitions: AtomicU64::new(0),
             states: AtomicU64::new(0),
             max_depth: AtomicU64::new(0),
+            bulk: AtomicU64::new(0),
             distinct: Mutex::new(HashSet::new()),
             nontrivial: Mutex::new(HashSet::new()),
             outcomes: Mutex::new(BTreeMap::new()),
@@ -126,6 +129,7 @@ impl Ctx {
         self.transitions.fetch_add(l.transitions, Ordering::Relaxed);
         self.distinct.lock().unwrap().extend(l.distinct);
         self.nontrivial.lock().unwrap().extend(l.nontrivial);
+        self.bulk.fetch_add(l.bulk, Ordering::Relaxed);
         let mut o = self.outcomes.lock().unwrap();
         for (k, v) in l.outcomes {
             *o.entry(k).or_insert(0) += v;
@@ -219,8 +223,9 @@ impl Ctx {
             }
         }
         let outcomes = self.outcomes.lock().unwrap().clone();
-        let distinct = self.distinct.lock().unwrap().len() as u64;
-        let nontrivial = self.nontrivial.lock().unwrap().len() as u64;
+        let bulk = self.bulk.load(Ordering::Relaxed);
+        let distinct = self.distinct.lock().unwrap().len() as u64 + bulk;
+        let nontrivial = self.nontrivial.lock().unwrap().len() as u64 + bulk;
         let evaluations = self.evaluations.load(Ordering::Relaxed);
         let transitions = self.transitions.load(Ordering::Relaxed).max(evaluations);
         let states = self.states.load(Ordering::Relaxed).max(distinct);
@@ -295,9 +300,23 @@ pub struct Local {
     pub distinct: Vec<u64>,
     pub nontrivial: Vec<u64>,
     pub outcomes: BTreeMap<String, u64>,
+    /// cases counted without storing their keys (distinct by construction, all non-trivial)
+    pub bulk: u64,
 }
 
 impl Local {
+    /// Count `n` cases that are pairwise distinct *by construction* (e.g. the completions of one
+    /// (policy set, partial view) pair) without keeping their keys in memory.
+    pub fn bulk_cases(&mut self, n: u64, class: &str) {
+        self.evaluations += n;
+        self.bulk += n;
+        match self.outcomes.get_mut(class) {
+            Some(c) => *c += n,
+            None => {
+                self.outcomes.insert(class.to_string(), n);
+            }
+        }
+    }
     pub fn case(&mut self, key: u64, class: &str, nontrivial: bool) {
         self.evaluations += 1;
         self.distinct.push(key);
